@@ -82,6 +82,18 @@ CLAIMED = {
              "interface, never from frequencies.",
         technique="Lean 4 algebraic proof (fairness criterion) + interface-level differential check",
         ref="7/C14"),
+    "C20": dict(
+        text="Lean 4: the cache machine ffCacheStep is extracted from get_assignment_class on every run; C20_cache_refines_pure proves by induction over "
+             "every history of typing calls that each call returns the object built from exactly the two files named in that call; C20_assignment_total_or_error "
+             "and C20_renumbering about the model of get_type_assignments over an abstract match relation; C20_table decides with decide +kernel, over the rule "
+             "and parameter tables extracted from opls.par / ffnonbonded.itp, that every rule's parameter row exists and has the element and mass of the rule's "
+             "leading atom primitive (one data typo, opls_420, is exhibited). Correspondence: random call histories with copies of the data files (files opened "
+             "observed), the assignment model on RDKit's match sets; oracle: totality incl. hydrogens, element masses, renumbering and history invariance, refusal "
+             "of partial molecules.",
+        note="RDKit SMARTS matching (which atoms a rule matches, independence of atom numbering) is a parameter of the model: oracle only. The cache defect of the "
+             "pinned tree was repaired by a fix: commit; the extracted machine follows the repaired code.",
+        technique="Lean 4 proofs over source-extracted cache machine and data tables (decide +kernel) + history-based differential check",
+        ref="7/C20"),
 }
 
 NOT_YET = {}
